@@ -53,6 +53,10 @@ func TestCheck(t *testing.T) {
 			}
 		}
 		x, err := mon.NewRIBMonVia(g.S, noFwd, via)
+		if err == nil && i%4 == 1 {
+			x.WithIdleHooks()
+			run.Count("histories_on_a_rib_with_hooks_registered", 1)
+		}
 		if err != nil {
 			run.Fatal(err.Error())
 			return
@@ -148,6 +152,9 @@ func TestCheck(t *testing.T) {
 		}
 		sp := gen.DefaultSpace()
 		x, err := mon.NewRIBMonVia(sp, noFwd, (i/2)%2) // alternately through package rib and the Modify RPC
+		if err == nil && (i/4)%2 == 1 {
+			x.WithIdleHooks()
+		}
 		if err != nil {
 			run.Fatal(err.Error())
 			return
